@@ -26,6 +26,10 @@ def dec(s):
 GRIDS_QUICK = [('5.95', '0.1'), ('2.5', '0.1'), ('4.95', '0.1'), ('-125.4', '0.1'), ('164.5', '0.1'), ('-0.35', '0.1'),
                ('0', '0.05'), ('31.5', '0.25'), ('-47.95', '0.01'), ('100.05', '0.001'), ('-180', '1'), ('0', '2.5'),
                ('5.95', '0.2'), ('0', '0.1'), ('-90', '0.5'), ('6.35', '0.05')]
+# whole-number and decimal starts with steps whose reciprocal is not a whole number (found by a seeded change:
+# cleaner_range used 1/h as scale and moved even the first edge, e.g. (4.0, 0.07) -> 3.99)
+GRIDS_STEP = [('4', '0.3'), ('5', '0.4'), ('-125', '0.6'), ('2', '0.15'), ('1', '0.7'), ('3', '0.75'), ('4', '0.07'),
+              ('-125', '0.03'), ('2.5', '0.06'), ('0', '0.12'), ('1', '0.011'), ('-7', '0.35')]
 GRIDS_MORE = [('3', '0.1'), ('-179.9', '0.1'), ('35.05', '0.1'), ('0.001', '0.001'), ('-0.05', '0.05'), ('1e3', '10'),
               ('-1.25', '0.25'), ('7.5', '0.5'), ('12.3', '0.3'), ('0', '0.3'), ('0.7', '0.7'), ('-3.6', '0.6'),
               ('2.45', '0.15'), ('89.9', '0.02')]
@@ -95,7 +99,7 @@ def run(chk, replay=None):
     table = {(c['n'], c['open'], c['pos']): c['allowed'] for c in cases}
 
     # ---------------------------------------------------------------- 2. spec -> code
-    grids = GRIDS_QUICK if quick else GRIDS_QUICK + GRIDS_MORE
+    grids = GRIDS_QUICK + GRIDS_STEP if quick else GRIDS_QUICK + GRIDS_STEP + GRIDS_MORE
     hows = ['array', 'scalar', 'list', 'f32']
     realised = set()
     for gi, (start, step) in enumerate(grids):
